@@ -443,6 +443,39 @@ def _warp_knots(ctx: Ctx, rel: str):
                         if not (b - a > 2 * EPS and d - b > 2 * EPS) and bad is None:
                             bad = dict(T=T, L=L, max_time_warp=str(MAXW), centre=float(c), shift=float(s_),
                                        knots=[float(a), float(b), float(d)])
+    # the two pinned knots are the centres of the first and last valid frame ((2 i + 1) / T - 1 for i = 0, L - 1) up to the
+    # regularising eps, in the destination AND the source stack: the spline is the identity at a pinned knot only if both
+    # stacks hold the same value there, and frame 0 / L - 1 is read "within half a frame" only if the pin sits on its centre
+    badpin = None
+    npin = 0
+    try:
+        stacks = []
+        for a_ in sp[0].args[:2]:
+            ke = a_
+            while isinstance(ke, ast.Call) and isinstance(ke.func, ast.Attribute) and ke.func.attr in MM.PASS_METHODS:
+                ke = ke.func.value
+            dsk = list(rdw.defs_of(ke)) if isinstance(ke, ast.Name) else []
+            if len(dsk) != 1 or not (isinstance(dsk[0].value, ast.Call) and call_name(dsk[0].value) == "torch.stack"
+                                      and isinstance(dsk[0].value.args[0], (ast.List, ast.Tuple)) and len(dsk[0].value.args[0].elts) == 3):
+                raise MM.Unknown("knots are not a stack of three")
+            stacks.append([exw.term(x) for x in dsk[0].value.args[0].elts])
+        for T in (3, 4, 7, 16):
+            for L in range(1, T + 1):
+                envw = dict(C=Fraction(L, 3), S=Fraction(1, 4), L=L, T=T, EPS=EPS)
+                for which, st_ in zip(("destination", "source"), stacks):
+                    lo, hi = MM.ev(st_[0], envw), MM.ev(st_[2], envw)
+                    npin += 1
+                    if (abs(lo - (Fraction(1, T) - 1)) > 4 * EPS or abs(hi - (Fraction(2 * L - 1, T) - 1)) > 4 * EPS) and badpin is None:
+                        badpin = dict(stack=which, T=T, L=L, pins=[float(lo), float(hi)],
+                                      frame_centres=[float(Fraction(1, T) - 1), float(Fraction(2 * L - 1, T) - 1)])
+    except MM.Unknown as e:
+        col.undecided(f"C08: pinned warp knots: {e}")
+    else:
+        col.ob("G12", "S6", f"{rel}::warp_1d_grid::pinned-knots-are-the-first-and-last-frame-centres", badpin is None and npin > 0,
+               f"the pinned knots `{MM.show(stacks[0][0])[:60]}` / `{MM.show(stacks[0][2])[:60]}` are not the centres of frame 0 and "
+               f"frame L - 1 in grid coordinates ((2 i + 1) / T - 1): e.g. {badpin}; the first or last valid frame then moves "
+               f"with the warp (by more than half a frame for a large shift) instead of staying fixed", rel, sp[0].lineno,
+               sample=dict(points=npin, lower=MM.show(stacks[0][0])[:80], upper=MM.show(stacks[0][2])[:80]))
     col.ob("G12", "S6", f"{rel}::spec_augment_draw_parameters->warp_1d_grid::moved-knot-strictly-between-pinned-knots", bad is None,
            f"the drawn centre `{MM.show(tc)[:90]}` plus shift `{MM.show(ts)[:70]}` ranges over [0, L), but warp_1d_grid clamps "
            f"the moved knot to [0, L - 1] - exactly the positions of the two pinned knots (offset only by eps): e.g. {bad} puts "
@@ -497,9 +530,13 @@ def _mutants():
     from selftest.mutate import Mutant as M
     I = "_img.py"
     return [
+        M("lower-pin-at-image-edge", I, "lowers = torch.full((N,), 1 / T - 1 - eps, dtype=torch.float, device=device)", "lowers = torch.full((N,), -1.0 - eps, dtype=torch.float, device=device)", "pinned-knots-are-the-first-and-last-frame-centres"),
+        M("upper-pin-one-frame-out", I, "uppers = (2 * lengths - 1) / T - 1.0 + eps", "uppers = (2 * lengths + 1) / T - 1.0 + eps", "pinned-knots-are-the-first-and-last-frame-centres"),
         M("grid-left-in-float32", "_img.py", "grid = grid.to(new_feats.dtype)\n", "", "sampling-grid-has-the-features'-dtype"),
-        # a scratch copy in which the known finding F25 is repaired (last pinned knot one frame further out) must be silent
-        M("repaired:last-pinned-knot-beyond-the-clamp", "_img.py", "uppers = (2 * lengths - 1) / T - 1.0 + eps", "uppers = (2 * lengths + 1) / T - 1.0 + eps", "", twin=True),
+        # a scratch copy in which the known finding F25 is repaired (moved knot clamped half a frame inside the pinned ones)
+        # must be silent
+        M("repaired:moved-knot-clamped-inside-the-pins", "_img.py", "src = torch.min(src, lengths - 1).clamp_min(0)\n    dst = torch.min(src + flow, lengths - 1).clamp_min(0)",
+          "src = torch.min(src, lengths - 1.5).clamp_min(0.5)\n    dst = torch.min(src + flow, lengths - 1.5).clamp_min(0.5)", "", twin=True),
         M("apply-slots-swapped", I, "w_0, w, v_0, v, t_0, t, f_0, f = params", "w_0, w, v_0, v, t, t_0, f_0, f = params", "G"),
         M("draw-return-swapped", I, "return (w_0, w, v_0, v, t_0, t, f_0, f)", "return (w_0, w, v_0, v, f_0, f, t_0, t)", "slot-sources"),
         M("freq-start-ignores-width", I, "f_0 = (torch.rand([N, num_freq_mask], device=device) * (F - f + omeps)).long()", "f_0 = (torch.rand([N, num_freq_mask], device=device) * (F + omeps)).long()", "G"),
